@@ -13,6 +13,7 @@ mod units;
 mod hist;
 mod total;
 mod leak;
+mod misc;
 
 #[global_allocator]
 static GLOBAL: leak::Counting = leak::Counting;
@@ -97,6 +98,8 @@ fn main() {
         "C01" | "C02" | "C03" | "C05" | "C17" | "C04" | "C06" | "C10" => checks_e1::check(prop, tier),
         "C08" => hist::c08(tier),
         "C09" => total::c09(tier),
+        "C11" => misc::c11(tier),
+        "C12" => misc::c12(tier),
         "C14" => leak::c14(tier),
         "C15" => checks_e1::check_c15(tier),
         "C16" => units::c16(tier),
